@@ -6,6 +6,8 @@
 From Coq Require Import List NArith String Bool.
 From Model Require Import Base Names Flt Matches Cd.
 From Proofs Require Import FloatLaws CdFacts.
+From Model Require Import Alph.
+From Proofs Require Import AlphFacts.
 From Model Require Import F32.
 From Proofs Require Import F32Laws.
 Import ListNotations.
@@ -77,3 +79,14 @@ Theorem C19_single_chunk_binary32 :
     coherence_ratio F32ops C t thr include = Some l -> merge_coherence_ratios F32ops [l] = l.
 Proof. intros C. exact (C19_single_chunk F32ops C F32_CmpLaws F32_FloatLaws). Qed.
 Print Assumptions C19_single_chunk_binary32.
+
+(* cd::alphabet_languages (which languages are scored for a script layer, and in which order) is not modelled as a
+   function: its order among equal ratios comes from sort_unstable_by on up to ~40 entries.  Its answer is VALIDATED by
+   the model on every call of every correspondence run (Model/Alph.v); a passed validation means the answer lists exactly
+   the candidates the model computes from the generated language table, each once: *)
+Theorem C19_validated_alphabet_languages_answer :
+  forall FO k02 acc chars inl answer,
+    alph_check FO k02 acc chars inl answer = true ->
+    Permutation.Permutation (map fst (alph_candidates FO k02 acc chars inl)) answer.
+Proof. exact alph_check_sound. Qed.
+Print Assumptions C19_validated_alphabet_languages_answer.
